@@ -88,6 +88,9 @@ def parseFtsOp (toks : List String) : Option Fts.Op :=
     let e ← nat? rest "e"
     if e ≥ 2 then none else some (.q (← nat? rest "s") e (← nat? rest "t"))
   | "qall" :: rest => do some (.qall (← nat? rest "s"))
+  | "link" :: rest => do some (.link (← nat? rest "s") (← nat? rest "n") (← nat? rest "m"))
+  | "qn" :: rest => do some (.qn (← nat? rest "s") (← nat? rest "t"))
+  | "qnall" :: rest => do some (.qnall (← nat? rest "s"))
   | _ => none
 
 def fmtNats (l : List Nat) : String := joinWith "," (l.map toString)
@@ -97,6 +100,9 @@ def fmtFtsOut : Fts.Out → String
   | .skip => "skip"
   | .hits rows => trimRight s!"hits {fmtNats rows}"
   | .all res => trimRight s!"all {joinWith ";" (res.map fun x => s!"{x.1}:{x.2.1}:{fmtNats x.2.2}")}"
+  | .nhits res => trimRight s!"nhits {joinWith ";" (res.map fun x => s!"{x.1}:{fmtNats x.2}")}"
+  | .nall res => trimRight s!"nall {joinWith ";" (res.map fun x =>
+      s!"{x.1}={joinWith "/" (x.2.map fun y => s!"{y.1}:{fmtNats y.2}")}")}"
 
 def parseRows (s : String) : Option (List (Nat × Room × Ent)) :=
   (s.splitOn ",").mapM fun t =>
